@@ -38,7 +38,9 @@ struct LThread {
    bool timedOutNow;     // set when the scheduler made the last wait of this thread time out
    long userTag;         // free for the harness
    long arg;             // argument of the yield the thread is at / was last at
-   LThread() : id(-1), finished(false), kind(0), obj(NULL), timed(false), threadObj(NULL), depth(0), fireTimeout(false), timedOutNow(false), userTag(0), arg(0) {}
+   bool willIntr;        // RANDOM: this (untimed) socket wait will be interrupted by a signal (EINTR) if nothing wakes it first
+   bool stuckPick;       // RANDOM: the thread was resumed by a timeout because nothing else could run
+   LThread() : id(-1), finished(false), kind(0), obj(NULL), timed(false), threadObj(NULL), depth(0), fireTimeout(false), timedOutNow(false), userTag(0), arg(0), willIntr(false), stuckPick(false) {}
 };
 
 struct State {
@@ -58,6 +60,9 @@ struct State {
    unsigned long steps;
    int stickiness;       // RANDOM: percent probability of letting the current thread continue if it can
    bool atomicLocks;     // RANDOM: never pre-empt a thread while it holds a muscle Mutex (critical sections are atomic, as in the specifications)
+   bool timeoutsWhenStuckOnly;   // RANDOM: a timed wait times out only when no thread can run otherwise (deadlines are far away: a waiter that needs its deadline to get a queued item was not woken)
+   int intrBudget, intrOneIn;    // RANDOM: up to intrBudget untimed socket waits are interrupted (EINTR), each chosen with probability 1/intrOneIn
+   int stuckStreak;              // consecutive resumptions by timeout while nothing else could run (bounded: a loop of timed waits must not hide a deadlock)
    std::string blockedDesc;
    std::function<bool(LThread *, int, const void *, long)> stopPred;   // DIRECTED
    std::function<void(LThread *, int, const void *, long)> onYield;    // optional observer (called with G held)
@@ -66,18 +71,19 @@ struct State {
    std::function<void(LThread *)> onTimeout;                           // optional: the scheduler made a timed wait of this thread time out
    std::vector<Event> events;
    std::vector<int> decisions;   // RANDOM: the schedule taken (for replay files)
-   State() : running(RUN_NONE), deadlock(false), active(false), hung(false), watchdogSeconds(30), mode(RANDOM), steps(0), stickiness(0), atomicLocks(false) {}
+   State() : running(RUN_NONE), deadlock(false), active(false), hung(false), watchdogSeconds(30), mode(RANDOM), steps(0), stickiness(0), atomicLocks(false), timeoutsWhenStuckOnly(false), intrBudget(0), intrOneIn(8), stuckStreak(0) {}
 };
 static State S;
 static thread_local int tl_id = -1;
 
-static inline bool Runnable(LThread * t)
+static inline bool Runnable(LThread * t, bool allowTimeout = true)
 {
    if (t->finished) return false;
+   const bool to = (allowTimeout)&&(t->timed)&&((S.mode == RANDOM)||(t->fireTimeout));
    switch(t->kind) {
       case YIELD_MUTEX_LOCK: { std::map<const void *, std::pair<int,int> >::iterator it = S.mutexOwner.find(t->obj); return ((it == S.mutexOwner.end())||(it->second.second == 0)||(it->second.first == t->id)); }
-      case YIELD_WC_WAIT:     return (S.wcPending[t->obj] > 0)||((t->timed)&&((S.mode == RANDOM)||(t->fireTimeout)));
-      case YIELD_SOCK_WAIT:   return (S.sockPending[t->obj] > 0)||(S.sockEOF[t->obj])||((t->timed)&&((S.mode == RANDOM)||(t->fireTimeout)));
+      case YIELD_WC_WAIT:     return (S.wcPending[t->obj] > 0)||(to);
+      case YIELD_SOCK_WAIT:   return (S.sockPending[t->obj] > 0)||(S.sockEOF[t->obj])||(to)||(t->willIntr);
       case YIELD_THREAD_JOIN: return S.threadEnded[t->obj];
       default: return true; }
 }
@@ -97,11 +103,18 @@ static inline void EndOrDeadlock()
 
 static inline int PickRandom(LThread * me)
 {
-   std::vector<int> c;
-   for (size_t i=0; i<S.LT.size(); i++) if (Runnable(S.LT[i])) c.push_back(S.LT[i]->id);
+   std::vector<int> c, noTO;
+   for (size_t i=0; i<S.LT.size(); i++) {if (Runnable(S.LT[i])) c.push_back(S.LT[i]->id); if (Runnable(S.LT[i], false)) noTO.push_back(S.LT[i]->id);}
    if (c.empty()) return RUN_ENDED;
-   if ((me)&&(S.atomicLocks)&&(me->depth > 0)&&(Runnable(me))) return me->id;
-   if ((me)&&(S.stickiness > 0)&&(Runnable(me))&&((int)(S.rng()%100) < S.stickiness)) return me->id;
+   if (noTO.empty()) {
+      // only deadlines can move things on
+      if (++S.stuckStreak > 8) return RUN_ENDED;
+      const int n = c[S.rng()%c.size()]; S.LT[n]->stuckPick = true; return n;
+   }
+   S.stuckStreak = 0;
+   if ((me)&&(S.atomicLocks)&&(me->depth > 0)&&(Runnable(me, false))) return me->id;
+   if ((me)&&(S.stickiness > 0)&&(Runnable(me, false))&&((int)(S.rng()%100) < S.stickiness)) return me->id;
+   if (S.timeoutsWhenStuckOnly) return noTO[S.rng()%noTO.size()];
    return c[S.rng()%c.size()];
 }
 
@@ -148,7 +161,8 @@ static inline int Yield(int kind, const void * obj, long arg)
          else {const int n = PickRandom(NULL); if (n < 0) EndOrDeadlock(); else {S.decisions.push_back(n); S.running = n; S.LT[n]->cv.notify_one();}}
          return 0; }
       default: break; }
-   me->kind = kind; me->obj = obj; me->arg = arg; me->timed = (((kind == YIELD_WC_WAIT)||(kind == YIELD_SOCK_WAIT))&&(arg != 0)); me->timedOutNow = false;
+   me->kind = kind; me->obj = obj; me->arg = arg; me->timed = (((kind == YIELD_WC_WAIT)||(kind == YIELD_SOCK_WAIT))&&(arg != 0)); me->timedOutNow = false; me->stuckPick = false;
+   me->willIntr = ((kind == YIELD_SOCK_WAIT)&&(!me->timed)&&(S.mode == RANDOM)&&(S.intrBudget > 0)&&((S.rng()%(unsigned) S.intrOneIn) == 0)); if (me->willIntr) S.intrBudget--;
    if (S.onYield) S.onYield(me, kind, obj, arg);
 
    int next;
@@ -160,7 +174,7 @@ static inline int Yield(int kind, const void * obj, long arg)
    if (kind == YIELD_MUTEX_LOCK)     { std::pair<int,int> & o = S.mutexOwner[obj]; o.first = me->id; o.second++; me->depth++; }
    else if (kind == YIELD_WC_WAIT)   { if (S.wcPending[obj] > 0) S.wcPending[obj] = 0; else {result = 1; me->timedOutNow = true; if (S.onTimeout) S.onTimeout(me);} }
    else if (kind == YIELD_SOCK_WAIT) { if ((S.sockPending[obj] > 0)||(S.sockEOF[obj])) result = 0; else {result = 1; me->timedOutNow = true; if (S.onTimeout) S.onTimeout(me);} }
-   me->kind = 0; me->obj = NULL; me->fireTimeout = false;
+   me->kind = 0; me->obj = NULL; me->fireTimeout = false; me->willIntr = false;
    if (S.onResume) S.onResume(me, kind, obj, result);
    return result;
 }
@@ -193,7 +207,7 @@ static inline void Reset(unsigned seed, Mode mode)
    // LThreads of earlier executions are leaked on purpose if they are parked (deadlock); finished ones are deleted
    for (size_t i=0; i<S.LT.size(); i++) if (S.LT[i]->finished) delete S.LT[i];
    S.LT.clear(); S.mutexOwner.clear(); S.wcPending.clear(); S.sockPending.clear(); S.sockEOF.clear(); S.threadEnded.clear(); S.threadCreatedN.clear(); S.threadRegisteredN.clear();
-   S.running = (mode == DIRECTED) ? RUN_CONTROLLER : RUN_NONE; S.deadlock = false; S.rng.seed(seed); S.mode = mode; S.steps = 0; S.events.clear(); S.decisions.clear(); S.blockedDesc.clear();
+   S.running = (mode == DIRECTED) ? RUN_CONTROLLER : RUN_NONE; S.deadlock = false; S.rng.seed(seed); S.mode = mode; S.steps = 0; S.timeoutsWhenStuckOnly = false; S.intrBudget = 0; S.stuckStreak = 0; S.events.clear(); S.decisions.clear(); S.blockedDesc.clear();
    S.active = true;
 }
 static inline void WaitRegistered(size_t n) { std::unique_lock<std::mutex> lk(S.G); S.ctl.wait(lk, [n]{return S.LT.size() >= n;}); }
